@@ -2237,54 +2237,77 @@ impl Archive {
             sector_offsets.last().copied().unwrap_or(0)
         );
 
-        // Check if we have sector CRCs
-        let mut sector_crcs = None;
-        if file_info.has_sector_crc() {
-            // The first sector offset tells us where the data starts
-            // If it's large enough to accommodate a CRC table, then CRCs are present
-            let first_data_offset = sector_offsets[0] as usize;
-            let expected_crc_table_start = offset_table_size;
-            let expected_crc_table_size = sector_count * 4;
-
-            if first_data_offset >= expected_crc_table_start + expected_crc_table_size {
-                // CRC table follows the offset table
-                let mut crc_data = vec![0u8; expected_crc_table_size];
-                self.reader.read_exact(&mut crc_data)?;
-
-                // CRC table may be encrypted if the file is encrypted
-                // According to MPQ format, CRC table uses the same key as the offset table but offset by sector count
-                if file_info.is_encrypted() {
-                    let crc_key = key.wrapping_sub(1).wrapping_add(sector_count as u32);
-                    decrypt_file_data(&mut crc_data, crc_key);
-                }
-
-                let mut crcs = Vec::with_capacity(sector_count);
-                let mut cursor = std::io::Cursor::new(&crc_data);
-                for _ in 0..sector_count {
-                    crcs.push(cursor.read_u32::<LittleEndian>()?);
-                }
-
-                // Log before moving
-                log::debug!(
-                    "Read {} sector CRCs, first few: {:?}",
-                    sector_count,
-                    &crcs[..5.min(crcs.len())]
-                );
-
-                sector_crcs = Some(crcs);
-            } else {
-                log::debug!(
-                    "File has SECTOR_CRC flag but insufficient space for CRC table (offset_table_size={}, first_data_offset={}, needed={}). This is common in some MPQ implementations.",
-                    offset_table_size,
-                    first_data_offset,
-                    expected_crc_table_start + expected_crc_table_size
-                );
-            }
-        }
-
         // The sizes in the block table and the sector offsets are not trustworthy: no sector
         // can be longer than what the archive holds from the file position on
         let stored_len = self.stored_len_from(file_info.file_pos)?;
+
+        // Sector checksums. The standard layout gives the offset table one more entry and
+        // stores the checksums (ADLER32 of every sector as stored) as an additional sector
+        // behind the data. Older versions of this library instead wrote the checksums of the
+        // uncompressed sectors right behind a table of the usual size, and did not count
+        // them in the stored size; those are not compared.
+        let mut sector_checksums: Option<Vec<u32>> = None;
+        if file_info.has_sector_crc() {
+            let first_offset = sector_offsets[0] as usize;
+            let standard_table_size = (sector_count + 2) * 4;
+            let legacy_data_start = (2 * sector_count + 1) * 4;
+            let legacy = first_offset == legacy_data_start
+                && sector_offsets[sector_count] as u64
+                    == file_info.compressed_size + (sector_count * 4) as u64;
+            if legacy {
+                log::debug!("Sector checksums in the layout of older versions, not compared");
+            } else if first_offset == standard_table_size {
+                self.reader.seek(SeekFrom::Start(file_info.file_pos))?;
+                let mut table = read_exact_vec(&mut self.reader, standard_table_size as u64)?;
+                if file_info.is_encrypted() {
+                    decrypt_file_data(&mut table, key.wrapping_sub(1));
+                }
+                let entry = |i: usize| {
+                    u32::from_le_bytes([
+                        table[i * 4],
+                        table[i * 4 + 1],
+                        table[i * 4 + 2],
+                        table[i * 4 + 3],
+                    ]) as u64
+                };
+                let (crc_start, crc_end) = (entry(sector_count), entry(sector_count + 1));
+                let wanted = (sector_count * 4) as u64;
+                if crc_end < crc_start || crc_end > stored_len || crc_end - crc_start > wanted {
+                    return Err(Error::invalid_format(format!(
+                        "Checksum sector at {crc_start}..{crc_end} does not fit {sector_count} sectors"
+                    )));
+                }
+                // Some writers flag the file but store no checksums
+                if crc_end > crc_start {
+                    self.reader
+                        .seek(SeekFrom::Start(file_info.file_pos + crc_start))?;
+                    let stored = read_exact_vec(&mut self.reader, crc_end - crc_start)?;
+                    // The checksum sector is never encrypted, but may be compressed
+                    let plain = if (stored.len() as u64) < wanted {
+                        compression::decompress(&stored[1..], stored[0], wanted as usize)?
+                    } else {
+                        stored
+                    };
+                    if plain.len() as u64 != wanted {
+                        return Err(Error::invalid_format(
+                            "Checksum sector has the wrong size",
+                        ));
+                    }
+                    sector_checksums = Some(
+                        plain
+                            .chunks_exact(4)
+                            .map(|c| u32::from_le_bytes([c[0], c[1], c[2], c[3]]))
+                            .collect(),
+                    );
+                }
+            } else {
+                return Err(Error::invalid_format(format!(
+                    "File has sector checksums but its sector table starts the data at {first_offset}"
+                )));
+            }
+        }
+        // A file that announces checksums is not patched up with zeros when a sector is unusable
+        let strict = file_info.has_sector_crc();
 
         // Read and decompress each sector
         // (reserve at most what is stored; the vector grows from there if the data expands)
@@ -2300,6 +2323,11 @@ impl Archive {
             let sector_start = sector_offsets[i] as u64;
             let sector_end = sector_offsets[i + 1] as u64;
 
+            if sector_end < sector_start && strict {
+                return Err(Error::invalid_format(format!(
+                    "Invalid sector offsets: start={sector_start}, end={sector_end} for sector {i}"
+                )));
+            }
             if sector_end < sector_start {
                 // This can happen with corrupted or malformed archives
                 // Try to recover by using the expected sector size
@@ -2354,12 +2382,20 @@ impl Archive {
                 decrypt_file_data(sector_data, sector_key);
             }
 
-            // Validate CRC if present - MUST be done AFTER decryption but BEFORE decompression
-            // Skip CRC validation for now due to decryption key issues in some archives
-            if let Some(ref _crcs) = sector_crcs {
-                // Temporarily disabled CRC validation
-                // TODO: Fix CRC decryption key calculation for proper validation
-                log::trace!("Skipping CRC validation for sector {i}");
+            // Validate the checksum - AFTER decryption but BEFORE decompression.
+            // 0 and 0xFFFFFFFF mean "no checksum recorded for this sector".
+            if let Some(ref checksums) = sector_checksums {
+                let expected = checksums[i];
+                if expected != 0 && expected != 0xFFFF_FFFF {
+                    let actual = adler2::adler32_slice(sector_data);
+                    if actual != expected {
+                        return Err(Error::ChecksumMismatch {
+                            file: file_info.filename.clone(),
+                            expected,
+                            actual,
+                        });
+                    }
+                }
             }
 
             // Decompress sector
@@ -2372,6 +2408,7 @@ impl Archive {
                         // IMPLODE compression - no compression type byte prefix
                         match compression::decompress(sector_data, 0x08, expected_size) {
                             Ok(decompressed) => decompressed,
+                            Err(e) if strict => return Err(e),
                             Err(e) => {
                                 log::warn!(
                                     "Failed to decompress IMPLODE sector {i}: {e}. Using zeros."
@@ -2389,6 +2426,7 @@ impl Archive {
                             expected_size,
                         ) {
                             Ok(decompressed) => decompressed,
+                            Err(e) if strict => return Err(e),
                             Err(e) => {
                                 log::warn!("Failed to decompress sector {i}: {e}. Using zeros.");
                                 vec![0u8; expected_size]
